@@ -117,6 +117,7 @@ pub fn gen_recipe(r: &mut Rng, uniq: u64, rich: bool) -> Recipe {
         mutation: None,
         plant: Vec::new(),
         ts_mode: None,
+        fill: None,
     }
 }
 
@@ -150,7 +151,12 @@ pub const MUTATIONS_C03: &[&str] = &[
     "two_cellbases", "cellbase_not_first", "cellbase_two_outputs", "cellbase_output_data", "cellbase_type_script",
     "cellbase_input_since", "cellbase_witness_garbage", "cellbase_no_witness", "dup_tx",
     "uncle_too_many", "uncle_other_epoch", "uncle_pow_invalid", "commit_bad_tx",
+    "proposals_duplicate", "uncle_proposal_duplicate", "uncle_proposals_hash", "uncle_bad_target", "extension_too_long",
 ];
+
+/// rules about the consensus limits (block bytes, block cycles, proposals per block and per uncle):
+/// generated in runs whose consensus has limits small enough for blocks to reach them
+pub const MUTATIONS_LIMITS: &[&str] = &["block_bytes_over", "block_cycles_over", "proposals_over_limit", "uncle_proposals_over_limit"];
 
 /// rules that only the header stage checks: generated only when deliveries pass through it
 pub const MUTATIONS_HEADER: &[&str] = &["hdr_ts_median", "hdr_number", "hdr_epoch_malformed", "hdr_pow"];
@@ -248,6 +254,7 @@ pub fn gen_tree_with(r: &mut Rng, n: usize, rich: bool, invalid: usize, muts: &[
 
 pub fn build_world(sc: &Scenario) -> World {
     let mut w = World::new(sc.cfg.clone());
+    w.assume_valid = sc.assume_valid_first > 0;
     for t in &sc.tree {
         let idx = w.build_child(t.parent, &t.recipe);
         debug_assert_eq!(idx, w.blocks.len() - 1);
@@ -457,13 +464,39 @@ pub fn generate(seed: u64, prop: &str) -> Scenario {
         if pow_only {
             muts = vec!["hdr_pow", "hdr_pow", "uncle_pow_invalid", "target"];
         }
-        let invalid = if pow_only { invalid.max(1) } else { invalid };
+        // two runs out of five have consensus limits that ordinary blocks reach: valid blocks are
+        // filled up to a limit exactly, mutants pass it by one byte / one id / one transaction
+        let mut rl = Rng::new(seed ^ 0xC03_11A1);
+        let limits = !pow_only && rich && rl.chance(2, 5);
+        if limits {
+            cfg.max_block_proposals = rl.range(1, 4);
+            cfg.max_block_bytes = *rl.pick(&[1_600u64, 2_200, 3_000, 5_000]);
+            cfg.max_block_cycles = crate::model::COST_ALWAYS_SUCCESS_VM0 * rl.range(1, 6);
+            for _ in 0..(muts.len() / 6).max(2) {
+                muts.extend_from_slice(MUTATIONS_LIMITS);
+            }
+        }
+        let invalid = if pow_only { invalid.max(1) } else if limits { invalid.max(1) } else { invalid };
         let mut t = gen_tree_with(&mut r, n, rich, invalid, &muts);
+        if limits {
+            for x in t.iter_mut() {
+                x.recipe.commit = x.recipe.commit.max(rl.urange(1, 4));
+                x.recipe.propose = x.recipe.propose.max(rl.urange(1, 4));
+                x.recipe.new_txs = x.recipe.new_txs.max(1);
+                if x.recipe.mutation.is_none() {
+                    match rl.below(6) {
+                        0 => x.recipe.fill = Some("bytes".into()),
+                        1 => x.recipe.fill = Some("proposals".into()),
+                        _ => {}
+                    }
+                }
+            }
+        }
         for x in t.iter_mut() {
             if x.recipe.mutation.is_none() && r3.chance(1, 10) {
                 x.recipe.ts_mode = Some("median_plus_one".into());
             }
-            if matches!(x.recipe.mutation.as_deref(), Some("uncle_too_many" | "uncle_other_epoch" | "uncle_pow_invalid")) {
+            if matches!(x.recipe.mutation.as_deref(), Some("uncle_too_many" | "uncle_other_epoch" | "uncle_pow_invalid" | "uncle_proposals_over_limit" | "uncle_proposal_duplicate" | "uncle_proposals_hash" | "uncle_bad_target")) {
                 x.recipe.uncles = 0;
             }
         }
